@@ -697,6 +697,14 @@ func (zp *ZoneParser) Next() (RR, bool) {
 		}
 	}
 
+	// A lexer error is sticky: the lexer hands out the error token once and reports the end
+	// of the input from then on. An RDATA parser that skips over tokens it does not inspect
+	// (NSEC, CSYNC, HIP, LOC, SVCB, ...) may have consumed that token, so don't take the end
+	// of the input at face value.
+	if zp.c.l.err {
+		return zp.setParseError(zp.c.l.token, zp.c.l)
+	}
+
 	// If we get here, we and the h.Rrtype is still zero, we haven't parsed anything, this
 	// is not an error, because an empty zone file is still a zone file.
 	return nil, false
